@@ -212,7 +212,7 @@ def generator_families(thorough):
     return [
         ("core", dict(universe="core", ops=4 if thorough else 3, faults=1, dev=devs), [], 700),
         ("tcp", dict(universe="tcp", ops=3, faults=1, dev=devs), [], 500),
-        ("load", dict(universe="load", ops=5, faults=0, dev=devs), [], 300),
+        ("load", dict(universe="load", ops=5, faults=0, dev=devs), ["--keep-last", "load"], 200),
         ("mute", dict(universe="core", ops=2, faults=0, mute=["1"], dev=devs), ["--mute", "1"], 16),
     ]
 
